@@ -136,6 +136,19 @@ def _metrics_check(case, R, eo, go, label_enum, names, acc, bad):
         tot["gt"] += gcount
         tot["tp"] += tp
         tot["fp"] += n_est - tp
+    # multi-frame (nested) containers: scoring the same container twice gives the same scores and leaves it untouched
+    half = len(R) // 2
+    nested = {l: [list(by.get(l, [])[:1]), list(by.get(l, [])[1:]), []] for l in labels}
+    shapes = {l: [len(x) for x in v] for l, v in nested.items()}
+    numd = {l: num.get(l, 0) for l in labels}
+    acc.exec(2)
+    m1 = ClassificationMetricsScore(nested, numd, labels)._summarize()
+    m2 = ClassificationMetricsScore(nested, numd, labels)._summarize()
+    a1 = [ClassificationAccuracy(nested[l], numd[l], [l]).results for l in labels]
+    if {l: [len(x) for x in v] for l, v in nested.items()} != shapes:
+        bad("metric:container-mutated", "scoring modified the caller's per-frame result lists: %s -> %s" % (shapes, {l.name: [len(x) for x in v] for l, v in nested.items()}))
+    if repr(m1) != repr(m2) or repr(m1) != repr(ms._summarize()):
+        bad("metric:re-evaluation-differs", "scoring the same nested results again gives %s, first %s, flat %s" % (m2, m1, ms._summarize()))
     accu, prec, rec, f1 = ms._summarize()
     w_acc = tot["tp"] / (tot["est"] + tot["gt"] - tot["tp"]) if (tot["est"] + tot["gt"] - tot["tp"]) else None
     w_prec = tot["tp"] / tot["est"] if tot["est"] else None
